@@ -3,6 +3,7 @@
 package main
 
 import (
+	"time"
 	"encoding/binary"
 	"encoding/hex"
 	"fmt"
@@ -30,6 +31,7 @@ type simKernel struct {
 	// scripted usage reports: returned (and consumed round-robin) for GET_REPORT / DEL_URR / URR update / multi
 	reports func(cmd uint8, seid uint64, urr uint32) [][]byte // each element: one UR attribute payload
 	failCmd map[uint8]int32                                   // command -> errno to answer with (once)
+	delay   map[uint8]time.Duration                           // command -> data-plane call latency
 }
 
 type simAttr struct {
@@ -185,6 +187,14 @@ func readUint(b []byte) uint64 {
 }
 
 func (k *simKernel) handle(req []byte) {
+	if len(req) >= 20 {
+		k.mu.Lock()
+		d := k.delay[req[16]]
+		k.mu.Unlock()
+		if d > 0 {
+			time.Sleep(d)
+		}
+	}
 	k.mu.Lock()
 	defer k.mu.Unlock()
 	if len(req) < 20 {
